@@ -385,7 +385,8 @@ class MarkdownNormalizer(Renderer):
 
         # GFM checkbox support.
         if hasattr(element, "checked"):
-            children = f"[{'x' if element.checked else ' '}] {children}"  # pyright: ignore
+            # Marko leaves the whitespace after the checkbox in the text.
+            children = f"[{'x' if element.checked else ' '}] {children.lstrip()}"  # pyright: ignore
 
         # Wrap the text.
         wrapped_text = self._line_wrapper(
